@@ -1331,6 +1331,18 @@ def c_convert_case(kind):
         g = func("g", [("int", "p")], "int", [ASG(V("p"), B("/", V("p"), lit(2))), ("ret", V("p"))], export=False)
         f = func("f", [("float", "a1")], "float", [("decl", "int", "r", ("call", "g", [V("a1")])), ("ret", B("+", V("r"), V("a1")))])
         ins = [({"a1": v}, {}) for v in (7.0, -4.0, 0.0)]
+    elif kind == "float-to-int-fraction":
+        g = func("g", [("int", "p")], "int", [("ret", B("*", V("p"), lit(10)))], export=False)
+        f = func("f", [("float", "a1")], "int", [("ret", ("call", "g", [V("a1")]))])
+        ins = [({"a1": v}, {}) for v in (2.5, 0.75, 7.0)]
+    elif kind == "float-vector-to-int-vector":
+        g = func("g", [(I2, "p")], "int", [("ret", B("+", B("*", IDX(V("p"), 0), lit(10)), IDX(V("p"), 1)))], export=False)
+        f = func("f", [(F2, "a1")], "int", [("ret", ("call", "g", [V("a1")]))])
+        ins = [({"a1": v}, {}) for v in ([2.5, 3.5], [0.25, 7.0])]
+    elif kind == "int-vector-to-float-vector":
+        g = func("g", [(F2, "p")], "float", [("ret", B("/", IDX(V("p"), 0), IDX(V("p"), 1)))], export=False)
+        f = func("f", [(I2, "a1")], "float", [("ret", ("call", "g", [V("a1")]))])
+        ins = [({"a1": v}, {}) for v in ([7, 2], [1, 4])]
     else:
         g = func("g", [("float", "p"), ("int", "q")], "float", [("ret", B("+", V("p"), V("q")))], export=False)
         f = func("f", [("int", "a1"), ("float", "a2")], "float", [("ret", ("call", "g", [V("a1"), V("a2")]))])
@@ -1354,7 +1366,7 @@ def fam_C(tier):
         for which in pair:
             for mutate in (False, True):
                 yield (c_overload_case, pair, which, mutate)
-    for kind in ("int-to-float", "float-to-int", "mixed-two-args"):
+    for kind in ("int-to-float", "float-to-int", "mixed-two-args", "float-to-int-fraction", "float-vector-to-int-vector", "int-vector-to-float-vector"):
         yield (c_convert_case, kind)
 
 
@@ -1582,6 +1594,24 @@ def v_misc_units(tier):
                 if len(parts) == 1 and parts[0] == n:
                     continue   # float3(vec3) is a plain copy; covered by copies
                 add(params, VT(c, n), CTOR(VT(c, n), *args), [(vals, {})], f"vector-ctor;{c};parts={len(parts)}")
+    # constructors whose arguments have ANOTHER component type than the result (conversion of scalar and of vector arguments);
+    # float -> int only with non-negative values, where floor and truncation agree
+    for n in (2, 3, 4):
+        for parts in _compositions_from(n, (1, 2, 3)):
+            for tc, ac in (("int", "float"), ("float", "int"), ("uint", "float")):
+                params, args, vals = [], [], {}
+                base = 1
+                for k, p in enumerate(parts):
+                    nm = f"q{k}"
+                    if p == 1:
+                        params.append((ac, nm))
+                        vals[nm] = float(base) + 0.5 if ac == "float" else base
+                    else:
+                        params.append((VT(ac, p), nm))
+                        vals[nm] = vec_value(ac, p, base)
+                    args.append(V(nm))
+                    base += 10
+                add(params, VT(tc, n), CTOR(VT(tc, n), *args), [(vals, {})], f"vector-ctor;{tc}-from-{ac};parts={len(parts)}")
     # constructor with int arguments for a float vector (promotion per component)
     add([("int", "a"), ("float", "b"), (VT("int", 2), "w")], VT("float", 4), CTOR(VT("float", 4), V("a"), V("b"), V("w")), [({"a": 3, "b": 1.5, "w": [7, 9]}, {})], "vector-ctor;mixed-component-types")
     return units
@@ -1742,6 +1772,16 @@ def fam_T(tier):
                 comps = sum({"vec2": 2, "vec3": 3}.get(c, 1) for c in combo)
                 yield (t_case, f"ctor;{shape_of(T)};components={'exact' if comps == n else 'fewer' if comps < n else 'more'}", params,
                        f"{T} v = {T}(" + ", ".join(f"q{i}" for i in range(k)) + ");")
+    ext = {"mat3": "float3x3", "mat4": "float4x4", "struct": "SS", "array": "int[2]"}
+    for T in SPELL_TYPES:
+        for k in range(1, 4):
+            for pos in range(k):
+                for ek in sorted(ext):
+                    for combo in itertools.product(sorted(kinds), repeat=k - 1):
+                        combo = list(combo)
+                        names = combo[:pos] + [ek] + combo[pos:]
+                        params = [((ext.get(c) or kinds[c]), f"q{i}") for i, c in enumerate(names)]
+                        yield (t_case, f"ctor;{shape_of(T)};with-{ek}-argument", params, f"{T} v = {T}(" + ", ".join(f"q{i}" for i in range(k)) + "); v = v * 2;")
     for T in ("float3x3", "float4x4"):
         n = int(T[-1])
         for rowt in (f"float{n}", f"int{n}", "float2"):
@@ -1964,6 +2004,13 @@ W_OUTSIDE = [
     ("float-div", "export function f(float x, float y) -> float { return x / y; }"),
     ("int-div-negative", "export function f(int a, int b) -> int { return a / b; }"),
     ("assignment-as-value", "export function f(int a, int b) -> int { return (a + 1) * (b + 2); }"),
+    # the front end does not convert or check the returned value against the declared result type
+    ("return-float-as-int", "export function f(float x, float y) -> int { return x / y; }"),
+    ("return-int-as-float", "export function f(int a, int b) -> float { return a + b; }"),
+    ("return-uint-as-int", "export function f(uint a, uint b) -> int { return a + b; }"),
+    ("return-value-in-void", "export function f(int a) -> void { return a; }"),
+    ("store-float-to-int-parameter", "export function f(int a, float x) -> int { a = x; return a; }"),
+    ("store-int-to-float-parameter", "export function f(int a, float x) -> float { x = a; return x * 0.5; }"),
 ]
 
 
@@ -2234,3 +2281,73 @@ def g_cases():
 @family("G")
 def fam_G(tier):
     yield from g_cases()
+
+
+# WU: modules using the same sign-dependent operation on unsigned and on signed operands (both orders), and on
+#     int and float operands: per-module generator state keyed too coarsely shows only with both in ONE module
+@family("WU")
+def fam_WU(tier):
+    ops = [("/", None), ("<", "int"), (">", "int"), ("==", "int"), ("+", None), ("*", None)]
+    kinds = [("uint", "u"), ("int", "i"), ("float", "f")]
+    for op, rt in ops:
+        for (t1, n1), (t2, n2) in itertools.permutations(kinds, 2):
+            r1 = rt or t1
+            r2 = rt or t2
+            src = (f"export function first({t1} a, {t1} b) -> {r1} {{ return a {op} b; }}\n"
+                   f"export function second({t2} a, {t2} b) -> {r2} {{ return a {op} b; }}\n")
+            vals = {"uint": [(7, 2), (3, 5)], "int": [(-7, 2), (7, -2), (-3, -5)], "float": [(-1.5, 0.5), (2.0, 4.0)]}
+            units = [{"funcs": [], "entry": "first", "inputs": [({"a": a, "b": b}, {}) for a, b in vals[t1]]},
+                     {"funcs": [], "entry": "second", "inputs": [({"a": a, "b": b}, {}) for a, b in vals[t2]]}]
+            yield {"fam": "WU", "desc": f"two-kinds;op={op};{t1}-then-{t2}", "src": src, "units": units}
+
+
+# =============================================================================================
+# CG: globals written by a callee and read by the caller before / after the call (C02, C05, C14, C17; C15 has its own driver)
+# =============================================================================================
+@family("CG")
+def fam_CG(tier):
+    for T, e1, bump, zero in (("int", "a + 1", "g = g + 10;", "0"), ("float", "a * 0.5", "g = g + 10.0;", "0.0"), ("float4", "w * 2.0", "g.x = g.x + 10.0;", None), ("int[2]", None, "g[1] = g[1] + 10;", None)):
+        for shape in ("store-call-load", "load-call-load", "store-call-store-load", "call-in-loop", "call-in-branch", "two-calls"):
+            if T == "int[2]":
+                rd, wr, RT = "g[1]", "g[1] = a;", "int"
+            elif T == "float4":
+                rd, wr, RT = "g.x", f"g = {e1};", "float"
+            else:
+                rd, wr, RT = "g", f"g = {e1};", T
+            body = {
+                "store-call-load": f"{wr} touch(); return {rd};",
+                "load-call-load": f"{RT} before = {rd}; touch(); return before * 100 + {rd};",
+                "store-call-store-load": f"{wr} touch(); {rd} = {rd} + 1; return {rd};",
+                "call-in-loop": f"{wr} for (int k = 0; k < 2; ++k) {{ touch(); {rd} = {rd} + 1; }} return {rd};",
+                "call-in-branch": f"{wr} if (a > 0) {{ touch(); }} return {rd};",
+                "two-calls": f"{wr} touch(); {RT} mid = {rd}; touch(); return mid * 100 + {rd};",
+            }[shape]
+            src = f"{T} g;\nfunction touch() -> void {{ {bump} }}\nexport function f(int a, float4 w) -> {RT} {{ {body} }}\n"
+            init = {"int": 1, "float": 0.5, "float4": [1.0, 2.0, 3.0, 4.0], "int[2]": [1, 2]}[T]
+            import copy
+            inputs = [({"a": a, "w": [0.5, 1.5, 2.5, 3.5]}, {"g": copy.deepcopy(init)}) for a in (2, 0)]
+            yield {"fam": "CG", "desc": f"global-through-call;{shape};{T}", "src": src, "units": [{"funcs": [], "entry": "f", "inputs": inputs}]}
+
+
+# =============================================================================================
+# H: function bodies whose FIRST statement is each statement kind (block / instruction index 0 edge cases)
+# =============================================================================================
+@family("H")
+def fam_H(tier):
+    firsts = [
+        ("while", "while (a < 3) { a = a + 1; } return a;"), ("do", "do { a = a + 1; } while (a < 3) return a;"),
+        ("for", "for (int i = 0; i < 3; ++i) { a = a + i; } return a;"), ("if", "if (a > 1) { return 5; } return a;"),
+        ("if-else", "if (a > 1) { a = 7; } else { a = 9; } return a;"), ("block", "{ a = a + 2; } return a;"), ("return", "return a + 1;"),
+        ("expression", "a = a * 2; return a;"), ("declaration", "int v = a; return v + 1;"), ("nested-loops", "while (a < 4) { do { a = a + 1; } while (a < 2) } return a;"),
+        ("while-with-break", "while (a < 9) { a = a + 1; if (a > 2) { break; } } return a;"), ("do-with-continue", "do { a = a + 1; if (a < 2) { continue; } a = a + 10; } while (a < 5) return a;"),
+        ("empty-while", "while (a < 0); return a;"), ("call", "g(a); return a;"), ("affix", "++a; return a;"),
+    ]
+    for name, body in firsts:
+        for second in (False, True):
+            helper = "function g(int p) -> int { while (p < 2) { p = p + 1; } return p; }\n"
+            extra = "export function h(int a) -> int { do { a = a + 2; } while (a < 4) return a; }\n" if second else ""
+            src = helper + f"export function f(int a) -> int {{ {body} }}\n" + extra
+            units = [{"funcs": [], "entry": "f", "inputs": [({"a": v}, {}) for v in (0, 1, 2, 5)]}]
+            if second:
+                units.append({"funcs": [], "entry": "h", "inputs": [({"a": v}, {}) for v in (0, 3)]})
+            yield {"fam": "H", "desc": f"first-statement={name}" + (";second-function" if second else ""), "src": src, "units": units}
